@@ -299,6 +299,44 @@ CHECKS["C17"] = (
     "bounded-exhaustive input enumeration (complete impulse bases) vs "
     "numpy reference and algebraic identities")
 
+CHECKS["C08"] = (
+    "4/C08",
+    "Deviation-bounded product (D=2 quick, FULL product of 700 vectors "
+    "thorough) over relative index x size parameter x k*z (both signs) x "
+    "lens angle; in each vector 4 polarization angles x 18 detector "
+    "positions: MieLens (100 and 200 quadrature nodes) vs Lens(Mie) refined "
+    "along a fixed quadrature ladder until two rungs agree per point "
+    "(points where the ladder does not converge are counted and asserted "
+    "about nothing); aberrated variant with zero coefficients in 4 "
+    "spellings; interpolation check/on/off and window/degree options; Lens "
+    "with unequal theta/phi orders; acceleration-library code path via a "
+    "shim; dedicated large-rho cut-off cases.",
+    "Trusted: the reference is HoloPy's own Lens(Mie) (a different code "
+    "path whose inner Mie amplitudes are checked against the textbook "
+    "series in C02), accepted only where converged.  Real numexpr is not "
+    "installed (shim only).",
+    "bounded-exhaustive input/configuration enumeration with a "
+    "convergence-ladder differential oracle")
+CHECKS["C16"] = (
+    "4/C16",
+    "Bounded-exhaustive on the real I/O: HDF5 save/load cycles 1-3 over "
+    "shape x dtype x spacing x name x file-name form x kind of every "
+    "metadata field (None / scalar / per-channel dict / labelled array), "
+    "values and coordinates bit-identical; TIFF export/import over channel "
+    "layout x scaling x depth (values within one quantisation step of the "
+    "stated scaling); load_image of PIL-written gray/RGB/RGBA rasters x "
+    "channel requests x spacings (pixel (i,j) at (i s_x, j s_y), channels "
+    "in requested order); load_average over EVERY permutation of the file "
+    "list for 1-4 images with/without reference image; update_metadata "
+    "over every subset of the four fields x value kinds (new object, only "
+    "named fields change, unit polarization, original untouched); all "
+    "enabled operation sequences of length 3 (4 thorough) over 7 file "
+    "operations vs a reference model of the file contents.",
+    "Trusted: PIL for writing reference rasters, numpy.  TIFF cannot carry "
+    "channel labels (compared by position).",
+    "bounded-exhaustive input + operation-sequence enumeration vs "
+    "reference model")
+
 NOT_YET = {}
 
 
